@@ -1,5 +1,6 @@
 """Implementation driver for C11 (PDDLTokenizer)."""
 import os
+import shutil
 import tempfile
 from pathlib import Path
 
@@ -108,10 +109,7 @@ def sequence(job):
             except Exception as e:  # noqa
                 out.append({"raised": type(e).__name__, "msg": str(e)[:200]})
     finally:
-        for p in paths:
-            if p.exists():
-                p.unlink()
-        os.rmdir(base)
+        shutil.rmtree(base, ignore_errors=True)
     return {"steps": out}
 
 
